@@ -334,7 +334,7 @@ def make_case(rng, discipline=True, dirty=None):
     saved = [mk(rng.choice(OTHER + [9]), 9, 9) for _ in range(rng.choice([1, 1, 2]))] if dirty and rng.random() < 0.7 else []
     pushed = [mk(rng.choice(OTHER), 8, 8) for _ in range(rng.choice([1, 1, 2]))] if dirty and rng.random() < 0.6 else []
     return {'env': env, 'partof': partof, 'k': 0, 'src': src_kind, 'toks': toks, 'text': text, 'raising': raising,
-            'saved': saved, 'pushed': pushed, 'table': table}
+            'saved': saved, 'pushed': pushed, 'table': table, 'disciplined': discipline}
 
 
 def model_line(case, fuel=200000):
@@ -347,3 +347,43 @@ def model_line(case, fuel=200000):
 def impl_reply(case):
     return run_impl(case['env'], case['k'], case['src'], case['toks'], case['text'], case['raising'], case['saved'],
                     case['pushed'], case['table'])
+
+
+# ---------------------------------------------------------------------------------------------
+def _dec_toks(w):
+    out = []
+    if w == '-':
+        return out
+    for x in w.split(','):
+        out.append(mk(int(x[1:].rstrip('!')), 1, 1))
+    return out
+
+
+def _dec_env(w):
+    env = []
+    for sp in w.split('|'):
+        fl, nodes = sp.split('/')
+        ns = []
+        for n in nodes.split(';'):
+            f = n.split(':')
+            if f[0] == 'P':
+                ns.append(('P', [int(x) for x in f[1].split('+')] if f[1] != '-' else [], '' if f[2] == '-' else f[2], f[3]))
+            elif f[0] == 'S':
+                ns.append(('S', [int(x) for x in f[1].split('+')], int(f[2]), None if f[3] == '*' else int(f[3])))
+            else:
+                ns.append(('C', [int(x) for x in f[1].split('+')] if f[1] != '-' else [], f[2]))
+        env.append({'flags': '' if fl == '-' else fl, 'nodes': ns})
+    return env
+
+
+def case_from_line(line):
+    """inverse of model_line for symbols of the fixed alphabet (corpus and replay)"""
+    w = line.split()
+    case = {'env': _dec_env(w[8]), 'k': int(w[6]), 'src': w[4], 'toks': _dec_toks(w[5]), 'text': None,
+            'raising': w[1] == 'R', 'saved': _dec_toks(w[2]), 'pushed': _dec_toks(w[3]), 'table': dict(SYM),
+            'disciplined': False}
+    if case['src'] == 'T':
+        import cssutils.tokenize2
+        case['text'] = render([int(x[1:].rstrip('!')) for x in w[5].split(',')]) if w[5] != '-' else ''
+        case['toks'] = list(cssutils.tokenize2.Tokenizer().tokenize(case['text'].strip()))
+    return case
